@@ -1,11 +1,25 @@
 """Case generator for C01: structured route declarations + paths instantiated from them and edited."""
 import itertools
+import re
 
 ASTRAL = '\U0001d11e'
 LETTERS = 'abcxyABX012'
 META = '.+*?()[]^$|\\{}'
 OTHER = ['%', ' ', '\u00e9', '\u20ac', ASTRAL, '-', '_', ':', '~', '\u0661', '\n', '=', '&', '#', ';', ',', '@', '!', '\u00c9']
 PATH_ALPHA = list('abcxyABX012') * 3 + list('/./-_%: ') + ['\u00e9', '\u20ac', '\n', '\u0661', ASTRAL, '~', '+', '*', '{', '}']
+
+
+NAMES = re.compile(r'[{:*]([_a-zA-Z]\w*)')
+
+
+def traverse_ok(pattern, tp):
+    if not tp.startswith('/') or any(c in tp for c in '%\n'):
+        return False
+    have = set(NAMES.findall(pattern))
+    body = tp
+    used = NAMES.findall(body)
+    return all(n in have for n in used) and len(set(used)) == len(used) and body.count('{') == body.count('}') \
+        and ':' not in body
 
 
 def lit_char(rng):
@@ -195,18 +209,94 @@ def mutate_struct(rng, elems, star):
     return elems, star
 
 
-def gen_preds(rng, elems):
+NFLAV = 8        # prop.FALSY / prop.TRUTHY: what a custom predicate returns for "does not hold" / "holds"
+PKEYS = ['q', 'q', 'a', 'page', '\u00e9', '=k', 'q ']
+PVALS = ['', '', '1', 'abc', '0', ' ', 'x y', '\u00e9', 'a=b', 'None', 'False']
+
+
+def gen_param_val(rng):
+    """one value of request_param=: 'k', 'k=v', 'k=' (present AND empty), with blanks around the halves, '=k=v'"""
+    k = rng.choice(PKEYS)
+    r = rng.random()
+    if r < 0.3:
+        return k
+    v = '' if r < 0.6 else rng.choice(PVALS)
+    if rng.random() < 0.15:
+        return ' %s = %s ' % (k, v)
+    return '%s=%s' % (k, v)
+
+
+def _want(val):
+    """(key, required value | None) as documented for request_param= (only used to aim the generated query strings)"""
+    if val.startswith('='):
+        if '=' in val[1:]:
+            k, v = val[1:].split('=', 1)
+            return ('=' + k).strip(), v.strip()
+        return val, None
+    if '=' in val:
+        k, v = val.split('=', 1)
+        return k.strip(), v.strip()
+    return val, None
+
+
+def gen_req(rng, decls):
+    """query string pairs + X-Requested-With for one request; mostly near what the declared request_param predicates
+    ask for (value as required / another value / empty / key missing / key twice)"""
+    want = []
+    for d in decls:
+        for p in d['preds']:
+            if p[0] == 'param':
+                for val in p[2]:
+                    want.append(_want(val))
+    q = []
+    for k, v in want:
+        r = rng.random()
+        if r < 0.45:
+            q.append([k, v if v is not None else rng.choice(PVALS)])
+        elif r < 0.8:
+            q.append([k, rng.choice(PVALS)])
+    for _ in range(rng.choice([0, 0, 0, 1, 1, 2])):
+        q.append([rng.choice(PKEYS).strip() if rng.random() < 0.8 else rng.choice(PKEYS), rng.choice(PVALS)])
+    if q and rng.random() < 0.25:
+        q.insert(rng.randrange(len(q) + 1), [rng.choice(q)[0], rng.choice(PVALS)])      # a key twice: the LAST value counts
+    return {'q': q, 'xhr': 1 if rng.random() < 0.3 else 0}
+
+
+def gen_traverse(rng, elems, star):
+    names = [e[1] for e in elems if e[0] in ('hole', 'old') and e[1].isidentifier() and e[1].isascii()]
+    parts = []
+    names = sorted(set(names))
+    rng.shuffle(names)
+    for _ in range(rng.choice([0, 1, 1, 2])):
+        parts.append('{%s}' % names.pop() if names and rng.random() < 0.75 else rng.choice(['a', 'docs', 'x.y']))
+    tp = '/' + '/'.join(parts)
+    if star.startswith('*') and star[1:].isidentifier() and star[1:].isascii() and rng.random() < 0.4:
+        tp = tp.rstrip('/') + '/' + star
+    return tp
+
+
+def gen_preds(rng, elems, star=''):
     preds = []
     hnames = [e for e in elems if e[0] in ('hole', 'old')]
     for _ in range(rng.choice([0, 0, 0, 0, 1, 1, 2, 3])):
         r = rng.random()
-        if r < 0.35:
+        if r < 0.28:
             preds.append(['const', 1 if rng.random() < 0.55 else 0])
-        elif r < 0.7 or not hnames:
+        elif r < 0.5 or (r >= 0.78 and not hnames):
             preds.append(['method', rng.choice(['GET', 'POST'])])
+        elif r < 0.68:
+            preds.append(['param', 1 if rng.random() < 0.2 else 0, [gen_param_val(rng) for _ in range(rng.choice([1, 1, 1, 2]))]])
+            continue
+        elif r < 0.78:
+            preds.append(['xhr', 1 if rng.random() < 0.2 else 0, 1 if rng.random() < 0.6 else 0])
+            continue
         else:
             e = rng.choice(hnames)
             preds.append(['eq', e[1], sample_hole(rng, e[2] if e[0] == 'hole' else HOLES[0])])
+        if rng.random() < 0.5:
+            preds[-1].append(rng.randrange(NFLAV))      # the custom predicate answers with a non-bool truthy / falsy value
+    if rng.random() < 0.08 and not any('>' in e[1] or not e[1].isascii() for e in hnames):
+        preds.append(['traverse', gen_traverse(rng, elems, star)])
     return preds
 
 
@@ -258,7 +348,14 @@ def gen_case(rng):
         structs.append((elems, star))
         name = rng.choice(rnames[:i]) if i and rng.random() < 0.12 else rnames[i]
         decls.append({'name': name, 'pattern': render(elems, star), 'static': 1 if rng.random() < 0.08 else 0,
-                      'preds': gen_preds(rng, elems)})
+                      'preds': gen_preds(rng, elems, star)})
+        if decls[-1]['preds'] and decls[-1]['preds'][-1][0] == 'traverse' and rng.random() < 0.12:
+            # a placeholder that is itself called 'traverse' on a route declared with traverse=
+            pt = decls[-1]['pattern']
+            for nm in ('n0', 'n1', 'n2', 'n3', 'n4', 'n5', 'rest', 'tail'):
+                if nm in pt and '{%s}' % nm not in decls[-1]['preds'][-1][1] and '*%s' % nm not in decls[-1]['preds'][-1][1]:
+                    decls[-1]['pattern'] = pt.replace(nm, 'traverse')
+                    break
     r = rng.random()
     if r < 0.82:
         statics = [st for st, d in zip(structs, decls) if d['static']]
@@ -282,12 +379,16 @@ def gen_case(rng):
         s = b.decode('latin-1')
     case = {'decls': decls, 'path': s, 'method': 'GET' if rng.random() < 0.7 else 'POST',
             'mode': 'router' if rng.random() < 0.10 else 'mapper', 'meta': meta}
+    if any(p[0] in ('param', 'xhr') for d in decls for p in d['preds']) or rng.random() < 0.1:
+        case['req'] = gen_req(rng, decls)
     if not router_ok(case):
         case['mode'] = 'mapper'
     if case['mode'] == 'router' and len(set(d['name'] for d in decls)) == len(decls) and rng.random() < 0.6:
         add_prefixes(rng, case)
     if s is not None and rng.random() < 0.2:
         case['history'] = gen_history(rng, case, structs)
+    for d in decls:      # the prefix / rename steps above may have removed a name a traverse= pattern uses
+        d['preds'] = [p for p in d['preds'] if p[0] != 'traverse' or traverse_ok(d['pattern'], p[1])]
     return case
 
 
@@ -313,6 +414,8 @@ def gen_history(rng, case, structs):
             path = instantiate(rng, elems, star)[0].encode('utf-8').decode('latin-1')
         hist.append({'path': path, 'method': case['method'] if rng.random() < 0.8 else rng.choice(['GET', 'POST']),
                      'mutate': gen_ops(rng)})
+        if 'req' in case and rng.random() < 0.4:
+            hist[-1]['req'] = gen_req(rng, case['decls'])     # the same long-lived mapper sees requests with other parameters
     return hist
 
 
@@ -363,6 +466,10 @@ def router_ok(case):
     if case['path'] is None:
         return False
     for d in case['decls']:
+        # add_route takes ONE request_param= / xhr= / traverse= argument
+        for kind in ('param', 'xhr', 'traverse'):
+            if sum(1 for p in d['preds'] if p[0] == kind) > 1:
+                return False
         try:
             if urlparse(d['pattern']).hostname:
                 return False
@@ -408,6 +515,31 @@ def targeted(rng):
                 c = _case([p], b, mode=mode)
                 c['history'] = [{'path': c['path'], 'method': 'GET', 'mutate': ops}]
                 yield c
+    # request predicates: required value / empty required value / bare key / negated, against present, empty, other, missing
+    for mode in ('mapper', 'router'):
+        for val in ('q=', 'q', 'q=abc', ' q = ', '=k=1', 'q=0'):
+            for neg in (0, 1):
+                for q in ([], [['q', '']], [['q', 'abc']], [['q', ' ']], [['q', '0']], [['q', 'abc'], ['q', '']], [['=k', '1']],
+                          [['a', '']]):
+                    c = _case(['/s/{kind}', '/s/{kind}'], '/s/books', {0: [['param', neg, [val]]]}, mode=mode)
+                    c['req'] = {'q': q, 'xhr': 0}
+                    yield c
+        for b in (0, 1):
+            for x in (0, 1):
+                c = _case(['/s/{kind}', '/*all'], '/s/books', {0: [['xhr', 0, b]]}, mode=mode)
+                c['req'] = {'q': [], 'xhr': x}
+                yield c
+        # custom predicates answering with falsy / truthy values that are not bools
+        for f in range(NFLAV):
+            for b in (0, 1):
+                yield _case(['/a/{x}', '/a/{x}'], '/a/1', {0: [['const', b, f]]}, mode=mode)
+                yield _case(['/a/{x}', '/a/{x}'], '/a/1', {0: [['const', 1, f], ['eq', 'x', '1' if b else '2', f]]}, mode=mode)
+        # traverse= (hybrid routes): the match dictionary keeps the captured text
+        for pat, tp, path in [('/d/{s}/{p}', '/{s}', '/d/user guide/a%b'), ('/d/{s}/{p}', '/{s}', '/d/caf\u00e9/x'),
+                              ('/f/{o}/*rest', '/{o}', '/f/bob/a/b'), ('/f/{o}/*rest', '/x/*rest', '/f/bob/a b/c'),
+                              ('/f/{o}/*rest', '/{o}', '/f/bob/'), ('/d/{s}', '/a/b', '/d/x y'), ('/d/{s}', '/', '/d/1')]:
+            yield _case([pat, '/*all'], path, {0: [['traverse', tp]]}, mode=mode)
+            yield _case([pat, '/*all'], path, {0: [['const', 1], ['traverse', tp]]}, mode=mode)
     # listings on the long-lived mapper before a dispatch (static routes must stay unmatchable)
     for mode in ('mapper', 'router'):
         for ops in ([['routes', 1]], [['routes', 1], ['routes', 1]], [['routes', 0], ['has'], ['get', 'r0']]):
